@@ -552,7 +552,8 @@ def _c2_strategy():
 
 def _fixed_strategy():
     from ..cat_arith import value_st
-    return st.tuples(st.integers(0, 20), st.integers(0, 20)).filter(lambda t: t[0] + t[1] >= 1).flatmap(
+    part = st.one_of(st.integers(0, 20), st.integers(0, 64), st.sampled_from([15, 16, 31, 32, 33, 63, 64]))
+    return st.tuples(part, part).filter(lambda t: t[0] + t[1] >= 1).flatmap(
         lambda t: st.tuples(value_st(1 + t[0] + t[1]), value_st(1 + t[0] + t[1]), st.sampled_from(['add', 'sub', 'mul'])).map(
             lambda u: {'kind': 'fixedpoint', 'iw': t[0], 'fw': t[1], 'a': u[0], 'b': u[1], 'op': u[2]}))
 
